@@ -98,6 +98,10 @@ pub enum Close {
     /// one-shot server style: read exactly what the peer is going to send, only then write, and drop the
     /// whole stream right after the last write was accepted — without waiting for the peer's end-of-file
     DropAll,
+    /// like `DropAll`, but the reader stops after half of what the peer sends: the stream is dropped with
+    /// inbound data unread or still on its way — an abortive close. The peer may see its stream end with
+    /// ConnectionReset / BrokenPipe from then on, but nobody may be left waiting, and what is read stays a prefix
+    Abort,
 }
 
 #[derive(Clone, Debug, PartialEq, Eq, Serialize, Deserialize)]
@@ -207,7 +211,8 @@ pub fn workload_ok(s: &[Side; 2]) -> bool {
     if s[0].wait_first && s[1].wait_first {
         return false;
     }
-    if s[0].close == Close::DropAll && s[1].close == Close::DropAll {
+    let one_shot = |c: Close| matches!(c, Close::DropAll | Close::Abort);
+    if one_shot(s[0].close) && one_shot(s[1].close) {
         return false;
     }
     // a reader that waits for its own writer must have a peer that keeps reading, and a writer
@@ -228,7 +233,11 @@ pub fn workload_ok(s: &[Side; 2]) -> bool {
             return false;
         }
         // x answers only after it has read everything p sends: p must send it without waiting for x
-        if s[x].close == Close::DropAll && (s[x].read_after_write || s[p].wait_first && s[p].total() > 0) {
+        if one_shot(s[x].close) && (s[x].read_after_write || s[p].wait_first && s[p].total() > 0) {
+            return false;
+        }
+        // x stops reading half way but still has to write before it drops the stream: p must keep reading
+        if s[x].close == Close::Abort && s[p].read_after_write {
             return false;
         }
     }
@@ -311,6 +320,8 @@ pub struct Obs {
     pub eof: [bool; 2],
     /// the side has closed (or is about to close) its write direction
     pub closing: [bool; 2],
+    /// the side has dropped its stream with inbound data unread (abortive close)
+    pub aborted: [bool; 2],
     pub connected: [bool; 2],
     pub errors: Vec<(usize, &'static str, io::ErrorKind)>,
     pub progress: u64,
@@ -330,6 +341,7 @@ impl Obs {
             read: [0; 2],
             eof: [false; 2],
             closing: [false; 2],
+            aborted: [false; 2],
             connected: [false; 2],
             errors: Vec::new(),
             progress: 0,
@@ -363,6 +375,8 @@ pub struct Shared {
     /// opened when the reader of a `Close::DropAll` side has consumed everything the peer sends (or failed)
     pub consumed: [Gate; 2],
     pub lo_side: Option<LoSide>,
+    /// the plan has lost a RST
+    pub rst_lost: std::cell::Cell<bool>,
     /// the wire has handed a FIN to this side
     pub fin_delivered: [std::cell::Cell<bool>; 2],
     pub round: std::cell::Cell<u32>,
@@ -447,7 +461,13 @@ impl Shared {
         o.log.tag(&format!("err{kind:?}"));
         o.errors.push((side, op, kind));
         o.progress += 1;
-        if o.mode == Mode::Bounded {
+        let peer_aborted = o.aborted[1 - side]
+            // (TimedOut: the peer's own retransmissions to the vanished end may run out before a reset it accepts arrives)
+            && matches!(kind, io::ErrorKind::ConnectionReset | io::ErrorKind::BrokenPipe | io::ErrorKind::ConnectionAborted | io::ErrorKind::NotConnected | io::ErrorKind::TimedOut);
+        if peer_aborted {
+            o.probes.inc("stream_ended_by_the_peers_abortive_close");
+        }
+        if o.mode == Mode::Bounded && !peer_aborted {
             o.fail6(
                 &format!("Error{kind:?}"),
                 format!("{} {op} returned {kind:?} although only a bounded number of packets was lost/delayed", SIDE_NAME[side]),
@@ -683,6 +703,14 @@ pub(super) async fn reader(sh: Rc<Shared>, side: usize, mut r: OwnedReadHalf) {
             sh.obs.borrow_mut().probes.inc("reader_stopped_without_waiting_for_eof");
             break;
         }
+        if prog.close == Close::Abort && sh.obs.borrow().read[side] >= peer_total / 2 {
+            let mut o = sh.obs.borrow_mut();
+            if peer_total > 0 {
+                o.aborted[side] = true;
+                o.probes.inc("reader_stopped_with_inbound_data_outstanding");
+            }
+            break;
+        }
         let sz = prog.reads[i % prog.reads.len()] as usize;
         i += 1;
         if prog.peek > 0 && i % prog.peek as usize == 0 {
@@ -728,7 +756,7 @@ async fn writer_body(sh: &Rc<Shared>, side: usize, mut w: OwnedWriteHalf) {
     if prog.wait_first {
         sh.first_byte[side].wait().await;
     }
-    if prog.close == Close::DropAll {
+    if matches!(prog.close, Close::DropAll | Close::Abort) {
         sh.consumed[side].wait().await;
     }
     let mut off = 0u64;
@@ -803,7 +831,7 @@ async fn writer_body(sh: &Rc<Shared>, side: usize, mut w: OwnedWriteHalf) {
             sh.mark_closing(side, "drop-stream");
             w.forget();
         }
-        Close::DropAll => {
+        Close::DropAll | Close::Abort => {
             // the read half is gone already: this closes the stream with the answer still on its way
             sh.mark_closing(side, "drop-stream-at-once");
             w.forget();
@@ -953,6 +981,7 @@ pub fn run_conn(sc: &Scenario, keep: bool) -> Outcome {
         writer_done: [Gate::default(), Gate::default()],
         consumed: [Gate::default(), Gate::default()],
         lo_side: if sc.topo.cross() { sc.lo_side.clone() } else { None },
+        rst_lost: Default::default(),
         fin_delivered: Default::default(),
         round: Default::default(),
         sleepers: Default::default(),
@@ -1272,6 +1301,9 @@ fn drive(sc: &Scenario, mode: Mode, guard: &EnterGuard, ex: &mut Executor, sh: &
                     st.flights.push(Flight { info, pkt, due: round + k });
                 }
                 Fate::Drop => {
+                    if info.kind == Kind::Rst {
+                        sh.rst_lost.set(true);
+                    }
                     st.faults.inc(&format!("drop_{}", info.kind.name()));
                     sh.obs.borrow_mut().log.tag("dropped");
                     active = true;
@@ -1369,6 +1401,11 @@ fn drive(sc: &Scenario, mode: Mode, guard: &EnterGuard, ex: &mut Executor, sh: &
                 st.wire.dirs[1].max_end_emitted
             );
             match mode {
+                // an abortive close is announced by a single RST that nothing repeats: when the plan loses it, the
+                // peer cannot learn of the close (as with any TCP), and its waiting is not judged
+                Mode::Bounded if (o.aborted[0] || o.aborted[1]) && st.faults.get("drop_RST") > 0 => {
+                    o.probes.inc("abortive_close_with_its_rst_lost_not_judged");
+                }
                 Mode::Bounded => {
                     o.fail6("Stall", format!("no application progress for {limit} rounds after the last fault (round {last_active}) with obligations outstanding: {detail}"));
                 }
